@@ -305,12 +305,13 @@ PROPS["C16"] = dict(
 
 PROPS["C02"] = dict(
     title="Untargeted content passes through a build unchanged (frame / type fidelity)",
-    modules=["Kust.Props.C02", "Kust.Props.C02b", "Kust.Props.C14d"],
-    theorems=["Kust.C02.text_without_dollar_untouched", "Kust.C02.expand_no_dollar", "Kust.C14.filter_denotes",
+    modules=["Kust.Props.C02", "Kust.Props.C02b", "Kust.Props.C14d", "Kust.Props.C02c"],
+    theorems=["Kust.C02.no_options_identity_kept", "Kust.C02.options_are_independent", "Kust.C02.namespace_kept", "Kust.C02.previous_id_recorded", "Kust.C02.smpatch_keeps_alignment",
+              "Kust.C02.text_without_dollar_untouched", "Kust.C02.expand_no_dollar", "Kust.C14.filter_denotes",
               "Kust.C02.filter_id", "Kust.C02.gvk_mismatch_untouched", "Kust.C02.setter_keeps_string", "Kust.C02.setter_leaves_safe_plain",
               "Kust.C02.set_entry_new", "Kust.C02.footprints", "Kust.C02.tables_paths_wellformed", "Kust.C02.pathGet_plain",
               "Kust.Fns.pathGet_nocreate_doc"],
-    components=["refvar.expand", "fieldspec.apply", "fns.setfield", "labels.build"],
+    components=["refvar.expand", "fieldspec.apply", "fns.setfield", "labels.build", "res.smpatch"],
     oracle=True,
     n_corr={"quick": 3000, "thorough": 40000}, n_oracle={"quick": 400, "thorough": 6000},
     technique="Lean 4 proof (the field-spec traversal changes nothing except through its setter; setters quote YAML-1.1-ambiguous strings; decide +kernel over the regenerated transformer tables: documented footprints) + Go/Lean correspondence of fieldspec.Filter and FieldSetter + tracer-based frame/type oracle on whole builds with an adversarial scalar dictionary",
